@@ -104,8 +104,9 @@ class Run(object):
                 # (how many sites of the pinned spelling they recognise) are not enforced while it passes
                 for r in rules:
                     run.soft.add(r)
-                if et is not None and issubclass(et, AnalysisError):
-                    # the rules could not follow this spelling at all: their instance floors cannot be met and are not enforced
+                if et is not None and issubclass(et, (AnalysisError, AttributeError, IndexError, KeyError, TypeError, ValueError)):
+                    # the rules could not follow this spelling at all (an unknown idiom, or a shape of the syntax tree they did not expect):
+                    # their instance floors cannot be met and are not enforced
                     for o in inside:
                         run.soft.add(o.rule)
                     for r in rules:
